@@ -21,7 +21,7 @@ from .common import Check, Driver, proof_stage, rng_for
 
 PROP = "C06"
 MODULE = "PV.Props.C06"
-THEOREMS = ["PV.Leaf.leaf_step", "PV.Leaf.leaf_returns", "PV.Leaf.call_leaf_returns", "PV.Props.C06.leaf_call_returns_to_call_site"] + \
+THEOREMS = ["PV.Leaf.leaf_step", "PV.Leaf.leaf_returns", "PV.Leaf.call_leaf_returns", "PV.Props.C06.leaf_call_returns_to_call_site", "PV.Props.C06.core_call_returns", "PV.Core.sim"] + \
            [f"PV.Props.C06.{t}" for t in ["jal_sets_ra", "return_lands_on_ra", "call_return_roundtrip", "addRaFixed_shape", "addRa_unchanged",
                                            "slots_distinct", "slots_in_stack", "lastIdx_last"]]
 
